@@ -5537,3 +5537,85 @@ func ruleDecodeBeforeStore(r *Run) {
 	}
 	r.check(n >= 1, "neuronjson:stored-and-decoded-bytes", fmt.Sprintf("%d", n), "none found: rule needs review", "-")
 }
+
+// ---------------------------------------------------------------------------------------------
+// R20.65 — a worker signs off once
+
+func init() {
+	register(ruleDef{ID: "R20.65", Prop: "C20", Tier: "quick", Floor: 1,
+		Title: "a worker signs off once: in the datastore, server, storage and datatype packages, in a function that receives a *sync.WaitGroup as a parameter no path leads from one Done() on it to another Done() on it (without an Add in between) — the second Done drives the counter negative, which panics in the worker's goroutine and ends the process, and the first one already let the waiting request go on before the work was finished",
+		Fn:    ruleWorkerSignsOffOnce})
+}
+
+func ruleWorkerSignsOffOnce(r *Run) {
+	w := r.W
+	n := 0
+	for _, f := range w.RepoFuncs {
+		if len(f.Blocks) == 0 || isTestFunc(w, f) {
+			continue
+		}
+		p := relPkg(pkgPathOf(f))
+		if !(strings.HasPrefix(p, "datatype/") || p == "datastore" || p == "server" || strings.HasPrefix(p, "storage")) {
+			continue
+		}
+		for _, prm := range f.Params {
+			if prm.Type().String() != "*sync.WaitGroup" {
+				continue
+			}
+			var dones []ssa.Instruction
+			for _, c := range calls(f) {
+				if _, isDefer := c.(*ssa.Defer); isDefer {
+					continue
+				}
+				callee := staticCallee(c)
+				if callee == nil || callee.Name() != "Done" || callee.Pkg == nil || callee.Pkg.Pkg.Path() != "sync" {
+					continue
+				}
+				if len(c.Common().Args) > 0 && c.Common().Args[0] == ssa.Value(prm) {
+					dones = append(dones, c)
+				}
+			}
+			if len(dones) == 0 {
+				continue
+			}
+			n++
+			isAdd := func(x ssa.Instruction) bool {
+				c, ok := x.(ssa.CallInstruction)
+				if !ok {
+					return false
+				}
+				callee := staticCallee(c)
+				return callee != nil && callee.Name() == "Add" && callee.Pkg != nil && callee.Pkg.Pkg.Path() == "sync" && len(c.Common().Args) > 0 && c.Common().Args[0] == ssa.Value(prm)
+			}
+			// a worker that signs off per item does so inside its receive loop, once per pass, and never after
+			// it; a worker that signs off per stream does so once after the loop.  Mixing the two — or two
+			// sign-offs outside loops on one path — is the defect.
+			var inLoop, outLoop []ssa.Instruction
+			for _, d := range dones {
+				if _, set, _ := innermostLoop(f, d.Block()); set != nil {
+					inLoop = append(inLoop, d)
+				} else {
+					outLoop = append(outLoop, d)
+				}
+			}
+			var wit []ssa.Instruction
+			for _, d1 := range dones {
+				for _, d2 := range outLoop {
+					if d1 == d2 && len(inLoop) == 0 {
+						continue
+					}
+					if pth := findPath(f, d1, isAdd, func(x ssa.Instruction) bool { return x == d2 }, nil); pth != nil && wit == nil {
+						wit = pth
+					}
+				}
+			}
+			pos := w.fpos(f)
+			if len(dones) > 0 {
+				pos = w.pos(dones[0].Pos())
+			}
+			r.check(wit == nil, fname(f)+":"+prm.Name()+":done-once", "no path passes two Done() on the group",
+				"a path through the function calls Done() on the caller's WaitGroup twice: the first lets the waiting request continue while this worker still runs, the second drives the counter negative — a panic in the worker's goroutine, outside any recover", pos, w.renderPath(wit)...)
+		}
+	}
+	r.check(n >= 10, "repo:workers-with-a-waitgroup", fmt.Sprintf("%d", n), "too few: rule needs review", "-")
+}
